@@ -447,8 +447,11 @@ func runHarness(pkgDir, harness string, loopBound, nval int, seed int64, maxPath
 			res.Inconclusive = append(res.Inconclusive, "native twin could not be built, nothing was validated or replayed: "+firstLine(rp.err))
 		}
 		for _, v := range validations {
-			res.ValidationTried++
 			nr := rp.run(harness, modelJSON(v.c))
+			if strings.Contains(nr.Panic, "vf.Sleep: witness needs a longer wait") {
+				continue // the path needs hours of waiting: not replayable natively, not a mismatch
+			}
+			res.ValidationTried++
 			want, _ := json.Marshal(v.reach)
 			got, _ := json.Marshal(nr.Reached)
 			if v.reach == nil {
